@@ -155,7 +155,16 @@ func singlelineDiff(expected, received string) (string, int, int) {
 		dmp.DiffMain(expected, received, false),
 	)
 	if len(diffs) == 1 && diffs[0].Type == diffEqual {
-		return "", -1, -1
+		if expected == received {
+			return "", -1, -1
+		}
+
+		// the strings differ only in bytes the rune based diff can't tell apart
+		// (e.g. invalid utf-8), report the whole line as changed.
+		diffs = []diffmatchpatch.Diff{
+			{Type: diffDelete, Text: expected},
+			{Type: diffInsert, Text: received},
+		}
 	}
 
 	var inserted, deleted int
